@@ -33,7 +33,13 @@ func (t *rotatingJWKS) RoundTrip(r *http.Request) (*http.Response, error) {
 	t.mu.Lock()
 	t.downloads++
 	set := jose.JSONWebKeySet{Keys: []jose.JSONWebKey{}}
+	names := append([]string(nil), t.published...)
+	hasU := false
 	for _, n := range t.published {
+		if n == "U" {
+			hasU = true
+			continue
+		}
 		if n == "E" {
 			// an RSA encryption key published under the key id of signing key A
 			set.Keys = append(set.Keys, jose.JSONWebKey{Key: rotKey(n).Pub, KeyID: rotKid(n), Use: "enc", Algorithm: "RSA-OAEP"})
@@ -43,6 +49,24 @@ func (t *rotatingJWKS) RoundTrip(r *http.Request) (*http.Response, error) {
 	}
 	t.mu.Unlock()
 	body, _ := json.Marshal(set)
+	if hasU {
+		// splice the member of unknown key type in at its position
+		var doc struct {
+			Keys []json.RawMessage `json:"keys"`
+		}
+		json.Unmarshal(body, &doc)
+		out := []json.RawMessage{}
+		ki := 0
+		for _, n := range names {
+			if n == "U" {
+				out = append(out, json.RawMessage(`{"kty":"PQ-XYZ","kid":"U","use":"sig","pub":"AAAA"}`))
+				continue
+			}
+			out = append(out, doc.Keys[ki])
+			ki++
+		}
+		body, _ = json.Marshal(map[string]any{"keys": out})
+	}
 	return &http.Response{StatusCode: 200, Header: http.Header{"Content-Type": {"application/json"}}, Body: io.NopCloser(bytes.NewReader(body)), Request: r}, nil
 }
 
@@ -57,6 +81,9 @@ func (s rotatingStorage) KeySet(context.Context) ([]op.Key, error) {
 	s.jwks.downloads++
 	keys := []op.Key{}
 	for _, n := range s.jwks.published {
+		if n == "U" {
+			continue // a storage cannot even represent a key of a type the library does not know
+		}
 		if n == "E" {
 			keys = append(keys, opKey{id: rotKid(n), use: "enc", alg: "RSA-OAEP", key: rotKey(n).Pub})
 			continue
